@@ -1,7 +1,7 @@
 (* C08/Properties.v — property theorems only.  Each is closed by [exact lemma],
    pinned by [Check name : statement] and followed by [Print Assumptions]. *)
 From Coq Require Import Sorting.Sorted Sorting.Permutation.
-From RM Require Import C08.Model C08.Proofs C08.WinModel C08.WinProofs C08.Driver Gen.C08Tables C08.Tie.
+From RM Require Import C08.Model C08.Proofs C08.IndexProofs C08.WinModel C08.WinProofs C08.Driver Gen.C08Tables C08.Tie.
 Open Scope Z_scope.
 
 (* Building never fails: the final RangeMap::try_from_iter(vec).unwrap() discards
@@ -107,6 +107,31 @@ Theorem c08_unloaded_sorted : forall (ranges : list (option range)) x,
 Proof. exact unloaded_exact. Qed.
 Print Assumptions c08_unloaded_sorted.
 
+(* ---- index-valued tables (module list, memory lists, memory-info list, Linux maps): the table holds
+   (entry.memory_range(), index) pairs and the lookups / by_addr index the stored vector with what they find. ---- *)
+
+(* by_addr: every table entry's index is in bounds of the vector and the table range is that entry's own range
+   (each entry is yielded at most once, never with a merged or foreign range) *)
+Theorem c08_indexed_table_exact : forall (ranges : list (option range)) r i,
+  In (r, i) (into_rangemap_safe Z.eqb (enumerate_from 0 ranges)) ->
+  0 <= i /\ nth_error ranges (Z.to_nat i) = Some (Some r).
+Proof. exact indexed_table_exact. Qed.
+Print Assumptions c08_indexed_table_exact.
+
+(* *_at_address: `&self.modules[index]` cannot be out of bounds, and the entry it names contains the address *)
+Theorem c08_indexed_lookup_in_bounds : forall (ranges : list (option range)) x i, wf_opt_ranges ranges ->
+  rm_get (into_rangemap_safe Z.eqb (enumerate_from 0 ranges)) x = Some i ->
+  exists r, 0 <= i /\ nth_error ranges (Z.to_nat i) = Some (Some r) /\ contains r x = true.
+Proof. exact indexed_lookup_in_bounds. Qed.
+Print Assumptions c08_indexed_lookup_in_bounds.
+
+Theorem c08_indexed_isolated_complete : forall (r1 : list (option range)) r r2 x,
+  wf_opt_ranges (r1 ++ Some r :: r2) ->
+  (forall r', In (Some r') (r1 ++ r2) -> intersects r r' = false) -> contains r x = true ->
+  rm_get (into_rangemap_safe Z.eqb (enumerate_from 0 (r1 ++ Some r :: r2))) x = Some (Z.of_nat (length r1)).
+Proof. exact indexed_isolated_complete. Qed.
+Print Assumptions c08_indexed_isolated_complete.
+
 (* ---- STACK WIN frame-data / FPO tables: insert_win_stack_info for every record in file order, then the
    parser-local builder.  Records are (u64 address, u32 size, everything else). ---- *)
 
@@ -197,6 +222,11 @@ Theorem c08_gen_builders :
 Proof. exact g_builders_all. Qed.
 Print Assumptions c08_gen_builders.
 
+Theorem c08_gen_indexed_total : forall ranges : list (option range), wf_opt_ranges ranges ->
+  g_build_indexed ranges = Ret (into_rangemap_safe Z.eqb (enumerate_from 0 ranges)).
+Proof. exact g_build_indexed_total. Qed.
+Print Assumptions c08_gen_indexed_total.
+
 (* hence: the generated STACK WIN pipeline never fails, for every list of records, in either profile *)
 Theorem c08_gen_win_total : forall p (l : list winrec), wf_recs l -> exists t, g_win_table p l = Ret t.
 Proof. exact g_win_table_total. Qed.
@@ -245,3 +275,10 @@ Example c08_nonvacuous_gen :
   g_build_indexed [mk_range 5 10; mk_range 0 0; mk_range 7 2; mk_range 20 1] = Ret [((5, 14), 0); ((20, 20), 3)] /\
   g_win_table Release [mkW 0 10 1; mkW 1 9 2; mkW 4 6 3] = Ret [((0, 0), mkW 0 1 1); ((1, 3), mkW 1 3 2); ((4, 9), mkW 4 6 3)].
 Proof. repeat split; vm_compute; reflexivity. Qed.
+
+Example c08_nonvacuous_indexed :
+  let ranges := [mk_range 5 10; mk_range 0 0; mk_range 7 2; mk_range 20 1; mk_range 18446744073709551615 1] in
+  wf_opt_ranges ranges /\
+  into_rangemap_safe Z.eqb (enumerate_from 0 ranges) = [((5, 14), 0); ((20, 20), 3)] /\
+  rm_get (into_rangemap_safe Z.eqb (enumerate_from 0 ranges)) 20 = Some 3.
+Proof. cbv zeta. split; [repeat constructor; cbn; discriminate|split; vm_compute; reflexivity]. Qed.
